@@ -29,6 +29,8 @@ def operands(rng, S):
 
 
 def main():
+    import astlib
+    astlib.AUTO_FUNCS = 0.2       # sqrt exp ln log pow at exact points in a fifth of the generated formulas
     rep = core.Report("C18")
     quick = core.tier() == "quick"
     ax, ay = pred("ge", var("x"), const(0)), pred("le", var("y"), const(1))
